@@ -5,7 +5,7 @@ from trkgen import history, scenes_of, VISUAL
 import itertools
 
 ID = "C20"
-THEOREM_MODULES = ["SimVerif.Props.C20", "SimVerif.Props.C20b", "SimVerif.Tie.Dist", "SimVerif.Tie.Constr", "SimVerif.Tie.Compat"]
+THEOREM_MODULES = ["SimVerif.Props.C20", "SimVerif.Props.C20b", "SimVerif.Tie.Dist", "SimVerif.Tie.Constr", "SimVerif.Tie.Compat", "SimVerif.Props.C20s"]
 THEOREM_MODULE = "SimVerif.Props.C20"
 NONTRIVIAL_FLAGS = {"constraint-checked-pairs", "constraint-near-limit", "compared-nonempty", "overlap", "near-disjoint", "rejected", "admitted-under-limit", "at-limit", "larger-gap-entry", "dup-gap", "assert"}
 RULE = ("cases = `constr new`, one or more `constr add k (gap limit)*` calls (gaps 0..8, limits from a grid, duplicates within and across calls, "
